@@ -97,8 +97,14 @@ class Interp:
     def exc_class(self, name):
         return self.models.exc_class(self, name)
 
+    def _log_fresh(self, t, kind):
+        if not hasattr(self.path, 'fresh_log'):
+            self.path.fresh_log = []
+        self.path.fresh_log.append((t.decl().name(), kind, t))
+
     def fresh_int(self, base, lo=None, hi=None):
         t = z3.Int(self.path.fresh_name(base))
+        self._log_fresh(t, 'int')
         if lo is not None:
             self.path.assume(t >= lo)
         if hi is not None:
@@ -106,12 +112,18 @@ class Interp:
         return SInt(t)
 
     def fresh_bool(self, base):
-        return SBool(z3.Bool(self.path.fresh_name(base)))
+        t = z3.Bool(self.path.fresh_name(base))
+        self._log_fresh(t, 'bool')
+        return SBool(t)
 
     def fresh_float(self, base):
         if self.float_mode == 'R':
-            return SReal(z3.Real(self.path.fresh_name(base)))
-        return SFloat(z3.FP(self.path.fresh_name(base), F64))
+            t = z3.Real(self.path.fresh_name(base))
+            self._log_fresh(t, 'float')
+            return SReal(t)
+        t = z3.FP(self.path.fresh_name(base), F64)
+        self._log_fresh(t, 'float')
+        return SFloat(t)
 
     def type_name(self, v):
         return self.models.type_name(self, v)
@@ -550,6 +562,9 @@ class Interp:
                     cls.attrs.setdefault(nm, Opaque('class-level %s.%s (%s)' % (qn, nm, e)))
         if st.decorator_list:
             raise OutOfSubset('class decorator on %s' % st.name)
+        hook = getattr(self.models, 'class_created', None)     # models of external base classes (enum.Enum)
+        if hook is not None:
+            hook(self, cls)
         fr.assign(st.name, cls)
 
     # ------------------------------------------------------------------ loops
@@ -989,6 +1004,8 @@ class Interp:
         if self.spec_mode and isinstance(e.func, ast.Name) and e.func.id == 'implies' and len(e.args) == 2:
             # lazy in the guard: implies(False, <anything, even ill-defined>) is True
             g = self.truth(self.eval(e.args[0], fr))
+            if isinstance(g, SBool):
+                g = mk_bool(self.path.reduce(g.t))      # the path condition may already decide the guard
             if g is False:
                 return True
             r = self.truth(self.eval(e.args[1], fr))
